@@ -1269,6 +1269,15 @@ func (g *Gen) originTx(mode int, bridge bool) *basetypes.OriginTx {
 				ot.Source = strings.ToLower(ot.Source)
 			}
 		}
+		if len(ot.Contract) > 2 && g.R.Chance(0.2) && !(g.P.AvoidKnown && g.W.Property == "C13") {
+			// the same Ethereum address with its hexadecimal digits in the other letter case
+			if h := ot.Contract[2:]; h == strings.ToLower(h) {
+				ot.Contract = "0x" + strings.ToUpper(h)
+			} else {
+				ot.Contract = "0x" + strings.ToLower(h)
+			}
+			g.W.Probe("origin_contract_in_other_letter_case")
+		}
 		if !bridge && g.R.Chance(0.3) {
 			ot.Contract = ""
 		}
